@@ -2,6 +2,7 @@ package kvql
 
 import (
 	"bytes"
+	"fmt"
 	"regexp"
 )
 
@@ -676,9 +677,21 @@ func (e *FieldAccessExpr) execListAccessBatch(idx int, left []any) ([]any, error
 	return left, nil
 }
 
+// chunkCacheKey identifies a chunk by its length, first key and last key: a
+// chunk of filtered rows can start with the same key as the scanned chunk it
+// was taken from, the first key alone would return that chunk's values
+func chunkCacheKey(chunk []KVPair) []byte {
+	first := chunk[0].Key
+	last := chunk[len(chunk)-1].Key
+	return []byte(fmt.Sprintf("%d-%d-%s%s", len(chunk), len(first), first, last))
+}
+
 func (e *FieldReferenceExpr) ExecuteBatch(chunk []KVPair, ctx *ExecuteCtx) ([]any, error) {
+	if ctx != nil && len(chunk) == 0 {
+		ctx = nil
+	}
 	if ctx != nil {
-		cval, have := ctx.GetChunkFieldResult(e.Name.Data, chunk[0].Key)
+		cval, have := ctx.GetChunkFieldResult(e.Name.Data, chunkCacheKey(chunk))
 		if have {
 			// Copy cached data
 			retCopy := make([]any, len(cval))
@@ -695,7 +708,7 @@ func (e *FieldReferenceExpr) ExecuteBatch(chunk []KVPair, ctx *ExecuteCtx) ([]an
 		// We should copy result to refuse result overwrite by later execute functions
 		retCopy := make([]any, len(ret))
 		copy(retCopy, ret)
-		ctx.SetChunkFieldResult(e.Name.Data, chunk[0].Key, retCopy)
+		ctx.SetChunkFieldResult(e.Name.Data, chunkCacheKey(chunk), retCopy)
 	}
 	return ret, err
 }
